@@ -3,6 +3,8 @@ package w
 import (
 	"encoding/json"
 	"fmt"
+	"runtime"
+	"runtime/debug"
 	"sort"
 	"strings"
 	"sync"
@@ -228,6 +230,7 @@ var expectNames []string
 
 // divergeLog, if set (VERIF_DIVERGE_LOG), receives the message of every replay divergence (debugging aid).
 var divergeLog func(string)
+var lastDivergeMsg string
 
 func runSchedule(t *testing.T, sc schedScenario, prefix []int, maxPoints int) (res schedResult) {
 	synctest.Test(t, func(t *testing.T) {
@@ -295,35 +298,46 @@ func init() {
 		nviol := 0
 		diverged := 0
 		capSoft := false
-		var explore func(prefix []int, depth int)
-		topOrdinal := 0
-		explore = func(prefix []int, depth int) {
+		// explore returns false when the prefix could not be replayed to the activity names its parent recorded
+		// (the parent decides what that means: see the perturbation handling below).
+		var explore func(prefix []int, depth int) bool
+		execs := 0
+		run1 := func(prefix []int) schedResult {
+			execs++
+			if execs%32 == 0 {
+				runtime.GC() // collections happen between executions only (SetGCPercent(-1) above): a collection inside
+				// an execution re-queues the running goroutine behind the ones it woke and changes the interleaving
+			}
+			return runSchedule(curT, sc, prefix, p.MaxPoints)
+		}
+		noteDiverged := func(msg string) {
+			diverged++
+			info.Exhaustive = false
+			info.Cap = fmt.Sprintf("%d schedule prefixes could not be replayed deterministically and were skipped", diverged)
+			capSoft = true
+			if divergeLog != nil {
+				divergeLog(msg)
+			}
+		}
+		explore = func(prefix []int, depth int) bool {
 			if !info.Exhaustive && info.Cap != "" && !capSoft {
-				return
+				return true
 			}
 			if time.Now().After(deadline) {
 				info.Exhaustive, info.Cap = false, "time budget"
-				return
+				return true
 			}
 			if p.MaxExec > 0 && info.Evaluations >= p.MaxExec {
 				info.Exhaustive, info.Cap = false, fmt.Sprintf("execution cap %d", p.MaxExec)
-				return
+				return true
 			}
-			r := runSchedule(curT, sc, prefix, p.MaxPoints)
+			r := run1(prefix)
 			for retry := 0; retry < 3 && r.viol != nil && r.viol.Sig == "E2:harness:replay-diverged"; retry++ {
-				r = runSchedule(curT, sc, prefix, p.MaxPoints)
+				r = run1(prefix)
 			}
 			if r.viol != nil && r.viol.Sig == "E2:harness:replay-diverged" {
-				// nondeterminism the scheduler does not own (unsynchronized accesses between two gates): the
-				// subtree below this prefix is not explored; reported as a cap, never as a violation
-				diverged++
-				info.Exhaustive = false
-				info.Cap = fmt.Sprintf("%d schedule prefixes could not be replayed deterministically and were skipped", diverged)
-				if divergeLog != nil {
-					divergeLog(r.viol.Msg)
-				}
-				capSoft = true
-				return
+				lastDivergeMsg = r.viol.Msg
+				return false
 			}
 			info.Evaluations++
 			info.Transitions += len(r.points)
@@ -344,7 +358,7 @@ func init() {
 				for k := 0; k < 2 && same; k++ {
 					save := expectNames
 					expectNames = nil
-					r2 := runSchedule(curT, sc, choicesOf(r.points), p.MaxPoints)
+					r2 := run1(choicesOf(r.points))
 					expectNames = save
 					if r2.viol == nil || r2.viol.Sig != r.viol.Sig {
 						same = false
@@ -355,43 +369,76 @@ func init() {
 					info.Exhaustive = false
 					info.Cap = fmt.Sprintf("%d schedules behaved differently when replayed (nondeterminism the scheduler does not own) and were not counted", diverged)
 					capSoft = true
-					return
+					return true
 				}
 				nviol++
 				if nviol <= 5 {
 					eb, _ := json.Marshal(map[string]interface{}{"scenario": p.Scenario, "args": p.Args, "choices": choicesOf(r.points), "trace": r.trace})
 					info.Violations = append(info.Violations, pt.ShardViol{Viol: *r.viol, Extra: eb})
 				}
-				return // do not explore below a failing execution
+				return true // do not explore below a failing execution
 			}
-			for i := len(prefix); i < len(r.points); i++ {
-				pt0 := r.points[i]
-				base := costOf(r.points, i)
-				for alt := 1; alt < len(pt0.Enabled); alt++ {
-					c := base + 1
-					if c > p.Bound {
-						continue
-					}
-					if depth == 0 {
-						topOrdinal++
-						if job.Shards > 1 && topOrdinal%job.Shards != job.Shard {
+			// children. A child that cannot be replayed to the names recorded here means one of two things: this
+			// execution itself was perturbed (the runtime pre-empted a goroutine between two gates: rare, load
+			// dependent) - then re-running the prefix gives a different trace and the children are enumerated again
+			// from the fresh execution; or the child is really nondeterministic - then it is skipped and counted.
+			done := map[string]bool{}
+			for attempt := 0; attempt < 4; attempt++ {
+				perturbedAt := ""
+				ord := 0
+			children:
+				for i := len(prefix); i < len(r.points); i++ {
+					pt0 := r.points[i]
+					base := costOf(r.points, i)
+					for alt := 1; alt < len(pt0.Enabled); alt++ {
+						if base+1 > p.Bound {
 							continue
 						}
+						if depth == 0 {
+							ord++
+							if job.Shards > 1 && ord%job.Shards != job.Shard {
+								continue
+							}
+						}
+						key := strings.Join(r.trace[:i], ">") + ">>" + pt0.Enabled[alt]
+						if done[key] {
+							continue
+						}
+						np := append(append([]int{}, choicesOf(r.points)[:i]...), alt)
+						save := expectNames
+						expectNames = append(append([]string{}, r.trace[:i]...), pt0.Enabled[alt])
+						ok := explore(np, depth+1)
+						expectNames = save
+						if !ok {
+							perturbedAt = key
+							break children
+						}
+						done[key] = true
 					}
-					np := append(append([]int{}, choicesOf(r.points)[:i]...), alt)
-					save := expectNames
-					expectNames = append(append([]string{}, r.trace[:i]...), pt0.Enabled[alt])
-					explore(np, depth+1)
-					expectNames = save
 				}
+				if perturbedAt == "" {
+					break
+				}
+				r2 := run1(prefix)
+				for retry := 0; retry < 3 && r2.viol != nil && r2.viol.Sig == "E2:harness:replay-diverged"; retry++ {
+					r2 = run1(prefix)
+				}
+				if r2.viol != nil && r2.viol.Sig == "E2:harness:replay-diverged" || strings.Join(r2.trace, ">") == strings.Join(r.trace, ">") || attempt == 3 {
+					// this execution is reproducible: the child is not
+					noteDiverged(lastDivergeMsg)
+					done[perturbedAt] = true
+					continue
+				}
+				r = r2 // this execution had been perturbed: enumerate again from the fresh one
 			}
+			return true
 		}
-		if job.Shard == 0 || job.Shards <= 1 {
-			explore(nil, 0)
-		} else {
-			// other shards re-run the root execution only to enumerate its alternatives
-			explore(nil, 0)
+		debug.SetGCPercent(-1)
+		debug.SetMemoryLimit(3 << 30)
+		if !explore(nil, 0) {
+			noteDiverged(lastDivergeMsg)
 		}
+		debug.SetGCPercent(100)
 		for k := range traces {
 			if len(info.Nontrivial) < 20000 {
 				info.Nontrivial = append(info.Nontrivial, k)
